@@ -5,10 +5,11 @@ worktree of /repo's HEAD (demo passes without, fails with the change; test suite
 import json, os, shutil, subprocess, sys
 
 ID, n = sys.argv[1], sys.argv[2]
-ROUND2 = "--r2" in sys.argv
-src = ("/tmp/wt/R2-%s-out/m%s" if ROUND2 else "/tmp/wt/%s-out/m%s") % (ID, n)
+ROUND = "2" if "--r2" in sys.argv else "3" if "--r3" in sys.argv else ""
+ROUND2 = bool(ROUND)
+src = ("/tmp/wt/R" + ROUND + "-%s-out/m%s" if ROUND else "/tmp/wt/%s-out/m%s") % (ID, n)
 wt = "/tmp/wt/confirm-%s-m%s" % (ID, n)
-dst = ("/verif/seeded/%s-r2m%s" if ROUND2 else "/verif/seeded/%s-m%s") % (ID, n)
+dst = ("/verif/seeded/%s-r" + ROUND + "m%s" if ROUND else "/verif/seeded/%s-m%s") % (ID, n)
 PY = "/venv/bin/python"
 
 def run(cmd, cwd=None, timeout=900):
